@@ -14,6 +14,8 @@ PENDING = {
         "SanityCheckToken compares only the imprint bytes, not its algorithm identifier: a token labelled with another algorithm is returned as success",
     "C10:client:rfc3161:negative-status-accepted":
         "ParseResponse rejects only Status > grantedWithMods: PKIStatus -1 with a valid token is treated as granted",
+    "C10:sign:negative-status-attached":
+        "signing attaches the token of a reply whose PKIStatus is -1",
     "C10:sign:missing-nonce-panic":
         "signing panics (nil dereference) on a token without nonce instead of trying the next authority",
     "C10:sign:legacy:no-failover":
@@ -202,6 +204,9 @@ def run(ctx, replay=None):
                 ctx.violation("C10:sign:%s:unstamped-success" % typ, "signing succeeded WITHOUT a timestamp although a timestamper is configured: %s" % c["seq"], obj)
                 continue
             o = c["origin"]
+            if 0 <= o < len(attrs) and attrs[o]["status"] < 0 and only_defect(attrs[o], style, "status", 0):
+                report("C10:sign:negative-status-attached", "%s: attached the token of a reply with PKIStatus %d: %s" % (typ, attrs[o]["status"], c["seq"]), obj)
+                continue
             if not (0 <= o < len(attrs)) or not genuine(attrs[o], style):
                 ctx.violation("C10:sign:%s:attached-non-genuine" % typ, "attached timestamp comes from authority %d which is not genuine: %s" % (o, c["seq"]), obj)
                 continue
@@ -396,6 +401,9 @@ def run(ctx, replay=None):
     samples = [{k: c.get(k) for k in ("kind", "style", "seq", "hits", "result", "origin")} for c in client[300:302]] + \
               [{k: c.get(k) for k in ("kind", "type", "pool", "seq", "hits", "result", "stamped", "origin")} for c in sign[2:4]] + \
               [{k: c.get(k) for k in ("kind", "form", "token", "leaf", "tsa", "ts_result", "chain", "accepted")} for c in verify[13:15]]
+    retried = [c for c in sign if c.get("retried")]
+    if retried:
+        ctx.notes.append("unrelated to C10: %d sign operations hit the intermittent `apply: EOF` of the %s transformer (reader goroutine still using the input descriptor when Apply starts) and were repeated" % (len(retried), sorted(set(c["type"] for c in retried))))
     cov.update({"evaluations": len(client) + len(sign) + len(verify) + sum(len(c["steps"]) for c in cache),
                 "model_evaluations": evaluated,
                 "distinct_nontrivial": len(nontrivial),
